@@ -26,6 +26,7 @@ import json
 import multiprocessing
 import os
 import re
+import sys
 from html.entities import codepoint2name
 
 from . import core
@@ -98,7 +99,11 @@ TRACE_CFG = ("CONSTANTS Alphabet <- FileAlphabet  GenNames <- FileGen  Charsets 
              "SPECIFICATION TSpec\nCHECK_DEADLOCK FALSE\n")
 
 
-def input_module(alpha, gen, cases):
+SESS_STRINGS = ["ab", "a<\u00e9\u20ac&\U0001F600'", " \u0416\"\u00a0"]      # plain ASCII / markup + unencodable in both / ws + cp1251-only
+SESS_CHARSETS = ["latin-1", "cp1251"]
+
+
+def input_module(alpha, gen, cases, sess_strings=()):
     """The generated EscapeInput.tla (overrides the placeholder in the scratch directory)."""
     def rec(f):
         return ("[n |-> %s, cp |-> %d, utf8 |-> %s, ent |-> %s, ws |-> %s, enc |-> %s]"
@@ -112,9 +117,10 @@ def input_module(alpha, gen, cases):
                   core.to_tla(o["trim"]), core.to_tla(o["dec"]), core.to_tla([[cs, v] for cs, v in sorted(o["enc"].items())])))
         return "[id |-> %d, s |-> %s, obs |-> %s]" % (c["id"], core.to_tla(c["s"]), obs)
     return ("---- MODULE EscapeInput ----\n\\* generated by harness/c10.py\n"
-            "InAlphabet == <<\n%s\n>>\nInGen == %s\nInCharsets == %s\nInCases == <<\n%s\n>>\n====\n"
+            "InAlphabet == <<\n%s\n>>\nInGen == %s\nInCharsets == %s\nInCases == <<\n%s\n>>\nInSessStrings == %s\n====\n"
             % (",\n".join(rec(facts(c)) for c in alpha), core.tla_set([core.tla_str(name_of(c)) for c in gen]),
-               core.tla_set([core.tla_str(c) for c in CHARSETS]), ",\n".join(case(c) for c in cases)))
+               core.tla_set([core.tla_str(c) for c in CHARSETS]), ",\n".join(case(c) for c in cases),
+               core.to_tla([names_of(x) for x in sess_strings] or [["a"]])))
 
 
 def read_rows(res):
@@ -710,7 +716,10 @@ def check(run):
             run.sample({"direction": "V", "input": text_of(cases[0]["s"]), "obs": {f: text_of(cases[0]["obs"][f]) for f in ("h", "u")}})
 
 
+    sessions(run, thorough, nproc, wk)
+
     run.assumptions += [
+        "sessions: every session runs in a child forked from a process that has only imported mako; CPython's own error handlers (strict, replace, ignore, xmlcharrefreplace) are trusted",
         "character facts (code point, UTF-8 octets, named entity, str.isspace, encodability per charset) come from CPython's html.entities / codecs / str and are trusted",
         "universality over code points rests on the abstraction into %d classes; the model decides per class representative" % len(classes),
         "markupsafe's own speedups are exercised as installed; objects with __html__ are outside the property",
@@ -720,6 +729,117 @@ def check(run):
                     "outputs exported); each compared with the real filters and Template.render; every code point swept by class "
                     "against the shape TLC computed for its representative; random strings judged by Trace_Escape.tla.",
             "exhaustive": True}
+
+
+# --------------------------------------------------------------------------- sessions (history dimension)
+def op_label(op):
+    if op["k"] == "render":
+        return "render(%s)" % op["b"]
+    if op["k"] == "encode":
+        return "str.encode(htmlentityreplace)"
+    return "filter(%s)" % op["a"]
+
+
+def sessions(run, thorough, nproc, wk):
+    """TLC enumerates every session of <= 2 operations (Session_Escape.tla), checks HistoryIndependent and
+    exports the expected result of every operation; each session is run in ONE fresh process of its own
+    and every operation's output compared.  Sessions of 3 operations are sampled (seeded)."""
+    import subprocess
+    from concurrent.futures import ThreadPoolExecutor
+    chars = sorted(set("".join(SESS_STRINGS)) | set(QUICK_ALPHA))
+    cfg = ("CONSTANTS Alphabet <- FileAlphabet  GenNames <- FileGen  Charsets <- FileCharsets  MaxLen = 0  MaxOps = 2\n"
+           " SessCharsets = {%s}\nSPECIFICATION SSpec\nINVARIANT HistoryIndependent\nINVARIANT ProcUntouched\nINVARIANT HandlerAlways\n"
+           "CHECK_DEADLOCK FALSE\n" % ", ".join('"%s"' % c for c in SESS_CHARSETS))
+    res = run.tlc("Session_Escape", cfg, name="sessions", workers=wk(4), timeout=900, heap="2g",
+                  extra_files={"EscapeInput.tla": input_module(chars, [], [], SESS_STRINGS)})
+    if res.violated:
+        run.spec_violation(res, "TLC: the design admits a history-dependent result (%s)" % res.violated)
+        return
+    rows = []
+    for line in res.out.splitlines():
+        if line.startswith('"{'):
+            v = json.loads(json.loads(line))
+            if "ops" in v and "res" in v:
+                rows.append(v)
+    key = lambda o: (o["k"], o["a"], o["b"], o["s"])
+    seen = {}
+    for v in rows:
+        seen[tuple(key(o) for o in v["ops"])] = v
+    singles = {k[0]: v for k, v in seen.items() if len(k) == 1}
+    nops = len(singles)
+    want = (len(SESS_CHARSETS) * 5 + len(SESS_CHARSETS) + 7) * len(SESS_STRINGS)
+    if nops != want or len(seen) != nops + nops * nops:
+        raise MachineryError("sessions: TLC exported %d operations (expected %d) and %d sessions" % (nops, want, len(seen)))
+    sess = [v for k, v in sorted(seen.items()) if len(k) == 2]
+    # sampled sessions of three operations: expectations are per operation (history independent in the model)
+    opkeys = sorted(singles)
+    for _ in range(1500 if thorough else 400):
+        ks = [run.rng.choice(opkeys) for _ in range(3)]
+        sess.append({"ops": [singles[k]["ops"][0] for k in ks], "res": [singles[k]["res"][0] for k in ks]})
+    jobs = []
+    for i, v in enumerate(sess):
+        ops = [dict(k=o["k"], a=o["a"], b=o["b"], text=text_of(o["arg"])) for o in v["ops"]]
+        jobs.append({"id": i, "ops": ops})
+    nchunk = max(1, min(nproc, 8))
+    chunks = [jobs[i::nchunk] for i in range(nchunk)]
+
+    def child(chunk):
+        p = subprocess.run([sys.executable, "-m", "harness.c10_session"], input=json.dumps(chunk), capture_output=True,
+                           text=True, timeout=900, cwd=core.VERIF)
+        if p.returncode != 0:
+            raise MachineryError("session runner failed: %s" % p.stderr[-1500:])
+        d = json.loads(p.stdout)
+        if not os.path.abspath(d["mako"]).startswith(os.path.abspath(core.MAKO_SRC) + os.sep):
+            raise MachineryError("session runner imported mako from %s" % d["mako"])
+        return d["out"]
+    with ThreadPoolExecutor(max_workers=nchunk) as ex:
+        outs = [o for part in ex.map(child, chunks) for o in part]
+    got = {o["id"]: o["res"] for o in outs}
+    mism = {}
+    ncmp = 0
+    for i, v in enumerate(sess):
+        obs = got.get(i)
+        if obs is None or len(obs) != len(v["ops"]):
+            raise MachineryError("session %d: no result from the runner" % i)
+        for j, (op, exp) in enumerate(zip(v["ops"], v["res"])):
+            ncmp += 1
+            d = session_diff(op, exp, obs[j])
+            if d:
+                prev = "+".join(op_label(o) for o in v["ops"][:j]) or "nothing"
+                sig = "history:%s:after:%s:%s" % (op_label(op), prev, d)
+                mism.setdefault(sig, []).append({"session": [dict(o, arg=text_of(o["arg"])) for o in v["ops"]], "failing_op": j,
+                                                 "expected": exp if exp and exp[0].startswith("?") else text_of(exp), "observed": obs[j]})
+                break
+    run.traces += len(sess)
+    run.extra["sessions_run"] = len(sess)
+    run.extra["session_operations_compared"] = ncmp
+    # report the shortest histories first; a failure that already shows in a one-operation history is not history dependent
+    # The property speaks of the filters and of htmlentityreplace; a history-dependent result of a render with
+    # ANOTHER errors mode is outside its clauses (recorded in the evidence, not a C10 verdict).
+    subject = {g: ms for g, ms in mism.items() if not g.startswith("history:render(") or g.startswith("history:render(htmlentityreplace)")}
+    run.extra["history_dependence_outside_property"] = sorted(set(mism) - set(subject))[:20]
+    for sig, ms in sorted(subject.items(), key=lambda kv: (len(kv[1][0]["session"]), kv[0]))[:12]:
+        run.violation(sig, "in one process, %s" % sig, {"example": ms[0], "count": len(ms)})
+    # negative control: a swapped expectation must be rejected
+    v = next(x for x in sess if x["ops"][0]["k"] == "render" and x["ops"][0]["b"] == "htmlentityreplace" and x["ops"][0]["s"] == 2)
+    run.negative_control(session_diff(v["ops"][0], v["res"][0] + ["a"], got[sess.index(v)][0]) is not None or bool(mism),
+                         "session comparer accepted a wrong expected result")
+    if sess:
+        run.sample({"direction": "R-session", "ops": [op_label(o) + ":" + o["a"] for o in sess[len(sess) // 3]["ops"]]})
+
+
+def session_diff(op, exp, ob):
+    """None if the observed result of one operation equals the expected one, else a failure mode."""
+    if exp and exp[0].startswith("?exc:"):
+        want = exp[0][5:]
+        return None if ob.get("x") == want else "no-exception" if "x" not in ob else "exc:" + ob["x"]
+    if "x" in ob:
+        return "exc:" + ob["x"]
+    e = text_of(exp)
+    if op["k"] in ("render", "encode"):
+        eb = enc_text(e, op["a"])
+        return None if ("b" in ob and eb is not None and bytes.fromhex(ob["b"]) == eb) else "wrong-output"
+    return None if ob.get("s") == e else "wrong-output"
 
 
 def negative_controls(run, rows):
